@@ -47,6 +47,10 @@ enum FileCreator {
     Background {
         sized_output_sender: Option<Sender<Result<SizedOutput>>>,
         sized_output_recv: Receiver<Result<SizedOutput>>,
+
+        /// Disconnects once the background task that deletes the previous output file (if any) has
+        /// finished.
+        old_output_deleted: Option<Receiver<()>>,
     },
     Regular {
         file_size: Option<u64>,
@@ -127,6 +131,7 @@ impl Output {
             FileCreator::Background {
                 sized_output_sender: Some(sized_output_sender),
                 sized_output_recv,
+                old_output_deleted: None,
             }
         } else {
             FileCreator::Regular { file_size: None }
@@ -148,11 +153,14 @@ impl Output {
             FileCreator::Background {
                 sized_output_sender,
                 sized_output_recv: _,
+                old_output_deleted,
             } => {
                 let sender = sized_output_sender
                     .take()
                     .expect("set_size must only be called once");
                 let path = self.path.clone();
+                let (deleted_sender, deleted_recv) = std::sync::mpsc::channel::<()>();
+                *old_output_deleted = Some(deleted_recv);
 
                 let output_config = self.config;
 
@@ -179,11 +187,10 @@ impl Output {
                             rayon::spawn(move || {
                                 crate::verif_phase!("verif: delete old output");
                                 let _ = std::fs::remove_file(renamed_old_file);
-                                // Note, we don't currently signal when we've finished deleting the
-                                // file. Based on experiments run on Linux 6.9.3, if we exit while
-                                // an unlink syscall is in progress on a separate thread, Linux will
-                                // wait for the unlink syscall to complete before terminating the
-                                // process.
+                                // Dropping the sender tells `wait_for_old_output_deletion` that
+                                // we're done. Without that, we could exit before this task even
+                                // starts, leaving the renamed file behind.
+                                drop(deleted_sender);
                             });
                         }
                     }
@@ -200,6 +207,20 @@ impl Output {
         }
     }
 
+    /// Waits until the previous output file, if there was one and we renamed it out of the way, has
+    /// been deleted.
+    fn wait_for_old_output_deletion(&self) {
+        if let FileCreator::Background {
+            old_output_deleted: Some(deleted_recv),
+            ..
+        } = &self.creator
+        {
+            verbose_timing_phase!("Wait for deletion of old output");
+            // The sender never sends, it just gets dropped.
+            let _ = deleted_recv.recv();
+        }
+    }
+
     /// Called when linking fails after we might have created (or started overwriting) the output
     /// file. Removes the file so that a failed link doesn't leave a partial output behind. This
     /// matches what GNU ld does.
@@ -208,6 +229,7 @@ impl Output {
             FileCreator::Background {
                 sized_output_sender,
                 sized_output_recv,
+                old_output_deleted: _,
             } => {
                 if sized_output_sender.is_some() {
                     // We never requested creation of the output file.
@@ -217,6 +239,7 @@ impl Output {
                 // the file before it gets created. If the output was already received, then the
                 // sender has been dropped and this returns immediately.
                 drop(sized_output_recv.recv());
+                self.wait_for_old_output_deletion();
             }
             FileCreator::Regular { file_size } => {
                 if file_size.is_none() {
@@ -240,6 +263,7 @@ impl Output {
             FileCreator::Background {
                 sized_output_sender,
                 sized_output_recv,
+                old_output_deleted: _,
             } => {
                 assert!(sized_output_sender.is_none(), "set_size was never called");
                 wait_for_sized_output(sized_output_recv)?
@@ -263,6 +287,8 @@ impl Output {
             timing_phase!("Unmap output file");
             drop(sized_output);
         }
+
+        self.wait_for_old_output_deletion();
 
         Ok(())
     }
